@@ -97,7 +97,10 @@ def reader_hands_every_record_on(ctx, RULE, P) -> None:
     for p in bp:
         if p.outcome is not NORMAL and p.outcome[0] != "continue":
             continue
-        if p.conds().get("wd == -1") is True:
+        c_ = p.conds()
+        # no watch for the record: the overflow marker (wd == -1), or a descriptor the map does not know (the kernel reports none:
+        # tabled in C07) -- there is no path to build an event with
+        if c_.get("wd == -1") is True or c_.get("self._path_for_wd.get(wd) is None") is True or c_.get("wd in self._path_for_wd") is False:
             continue
         n = 0
         for e in p.evs:
